@@ -7,6 +7,8 @@ use libtw2_net::net::PeerId;
 pub struct NCb {
     pub now_us: u64,
     pub out: Vec<(u8, Vec<u8>)>,
+    /// fault injection: the send callback reports an error (nothing is sent)
+    pub fail_sends: bool,
 }
 impl n6::Callback<u8> for NCb {
     type Error = Never;
@@ -17,6 +19,9 @@ impl n6::Callback<u8> for NCb {
         }
     }
     fn send(&mut self, addr: u8, data: &[u8]) -> Result<(), Never> {
+        if self.fail_sends {
+            return Err(Never);
+        }
         self.out.push((addr, data.to_vec()));
         Ok(())
     }
@@ -189,6 +194,7 @@ impl NetWorld {
         } else {
             Vec::new()
         };
+        self.cb.fail_sends = act["fail"].as_bool().unwrap_or(false);
         let net = &mut self.net;
         let cb = &mut self.cb;
         let r: Result<(String, Vec<Value>, Option<u32>), String> = match a {
@@ -228,15 +234,15 @@ impl NetWorld {
             "reject" => {
                 let rs = reason(act["r"].as_u64().unwrap_or(0) as usize);
                 catch(|| {
-                    let _ = net.reject(cb, pid(), &rs);
-                    ("ok".to_string(), vec![], None)
+                    let r = net.reject(cb, pid(), &rs);
+                    ((if r.is_ok() { "ok" } else { "callback" }).to_string(), vec![], None)
                 })
             }
             "disconnect" => {
                 let rs = reason(act["r"].as_u64().unwrap_or(0) as usize);
                 catch(|| {
-                    let _ = net.disconnect(cb, pid(), &rs);
-                    ("ok".to_string(), vec![], None)
+                    let r = net.disconnect(cb, pid(), &rs);
+                    ((if r.is_ok() { "ok" } else { "callback" }).to_string(), vec![], None)
                 })
             }
             "ignore" => catch(|| {
@@ -293,6 +299,7 @@ impl NetWorld {
             }
             Err(m) => out.res = format!("panic: {} @ {}", m, vh_common::last_panic_location()),
         }
+        self.cb.fail_sends = false;
         out.sends = self.collect(&pre);
         out
     }
